@@ -10,3 +10,6 @@ Lemma let_context_refuted : composes_top T_expr_call T_alias_slice = false /\ co
 Proof. vm_compute. auto. Qed.
 Lemma assignment_glues_operator_refuted : composes_top T_assign_lit T_expr_neg = false.
 Proof. vm_compute. auto. Qed.
+Lemma empty_after_item_refuted : composes_top T_decl_int T_empty = false /\ composes_top T_expr_call T_empty = true /\
+                                  composes_block T_decl_int T_empty = true.
+Proof. vm_compute. auto. Qed.
